@@ -130,14 +130,25 @@ def o111(ctx):
             ctx.count(1)
             if ow is None or to_term(ow) != sym("overwrite"):
                 ctx.finding(WR, ev.node, "the overwrite option must be passed on to the library writer", ev.node, mw)
-    # TiltStack uses the un-permuted layout on both sides
-    for q, callee in (("tiltstack.TiltStack.__init__", "read"), ("tiltstack.TiltStack.write_out", "write")):
+    # TiltStack uses the un-permuted layout on both sides (decided on the calls that reach cryomap.read / cryomap.write, wherever they are made from)
+    for q, callee, args, me in (("tiltstack.TiltStack.__init__", "read", [K("stack.mrc")], Obj("tiltstack.TiltStack", {})),
+                                ("tiltstack.TiltStack.write_out", "write", [P("output_file")],
+                                 Obj("tiltstack.TiltStack", {"data": Unk(sym("stack")), "data_type": Unk(sym("dtype"))}))):
         mq, fq = ctx.prog.func(q)
-        calls = [n for n in ast.walk(fq) if isinstance(n, ast.Call) and ctx.prog.resolve(mq, n.func) == f"cryocat.cryomap.{callee}"]
+        it = Interp(ctx.prog, no_inline=("cryomap.read", "cryomap.write"),
+                    assume=assume_map({"not isinstance(tilt_stack, np.ndarray)": True, "isinstance(tilt_stack, np.ndarray)": False, "self.data.shape == 2": False,
+                                       "data.shape == 2": False, "output_file": True, "new_data is not None": False, "data is not None": False}))
+        kw = {"input_order": K("xyz"), "output_order": P("output_order")} if callee == "read" else {}
+        it.run(q, args, kw, self_obj=me)
+        evs = [e for e in it.events if e.kind == "call" and e.name == f"cryocat.cryomap.{callee}"]
         ctx.count(1)
-        if len(calls) != 1 or not (isinstance(kwarg(calls[0], "transpose"), ast.Constant) and kwarg(calls[0], "transpose").value is False):
-            ctx.finding(q, calls[0] if calls else fq, f"tilt stacks are kept in file (n,y,x) order: cryomap.{callee} must be called with "
-                        "transpose=False on both the reading and the writing side", calls[0] if calls else fq, mq)
+        okt = len(evs) == 1
+        if okt:
+            tr = bind(ctx.prog, RD if callee == "read" else WR, evs[0]).get("transpose")
+            okt = tr is not None and is_pyconst(tr) and pyval(tr) is False
+        if not okt:
+            ctx.finding(q, evs[0].node if evs else fq, f"tilt stacks are kept in file (n,y,x) order: cryomap.{callee} must be called with "
+                        "transpose=False on both the reading and the writing side", evs[0].node if evs else fq, mq)
 
 
 def o112(ctx):
@@ -228,7 +239,19 @@ def o114(ctx):
                     rd = call("cryocat.cryomap.read", const(name))
                     want_data = mk("mul", rd, const(-1)) if invert else rd
                     d = b.get("data_to_write")
-                    v = d is not None and tm.equivalent(to_term(d), want_data, seed_tag=q + "d")
+                    # read(name) and read(name, transpose=True, data_type=None) are the same call: options written out with their default values
+                    rd_ev = [e_ for e_ in it.events if e_.kind == "call" and e_.name == "cryocat.cryomap.read"]
+                    canon = {}
+                    for e_ in rd_ev:
+                        br = bind(ctx.prog, RD, e_)
+                        if is_pyconst(br.get("input_map", K(None))) and pyval(br["input_map"]) == name \
+                                and (("transpose" not in br) or (is_pyconst(br["transpose"]) and pyval(br["transpose"]) is True)) \
+                                and (("data_type" not in br) or (is_pyconst(br["data_type"]) and pyval(br["data_type"]) is None)):
+                            r_ = e_.extra.get("ret")
+                            if r_ is not None:
+                                canon[to_term(r_)] = rd
+                    dt_ = tm.subst(to_term(d), canon) if d is not None and canon else (to_term(d) if d is not None else None)
+                    v = d is not None and tm.equivalent(dt_, want_data, seed_tag=q + "d")
                     ctx.count(1)
                     if not v:
                         ctx.finding(q, "data passed to cryomap.write", f"with invert={invert} and output_name={explicit!r} the voxels written "
